@@ -903,13 +903,127 @@ Proof.
   apply (fold_header_meta au rc i ls H (Ok (c_meta i))).
 Qed.
 
+(* ---- text values for the FILE path -------------------------------------------------------------------------
+   file.readlines() ends a line only at "\n" (and "\r", universal newlines), so a value may contain the other
+   eight str.splitlines boundaries (\x0b \x0c \x1c \x1d \x1e \x85 U+2028 U+2029) strictly inside and is still a
+   single line of the file.  wf_text_rl is that weaker condition (cf. wf_field_rl of the C09 package);
+   wf_field of Proofs/Meta.v additionally excludes those eight characters (needed for parse_str only). *)
+Definition wf_text_rl (v : text) : Prop := wf_value v /\ no_nlcr v = true.
+Definition wf_fields_rl (m : meta) : Prop :=
+  wf_text_rl (file_name m) /\ wf_text_rl (title m) /\ wf_text_rl (description m) /\ wf_text_rl (data_type m) /\
+  wf_text_rl (modification_type m) /\ wf_text_rl (relates_to m) /\ wf_text_rl (related_files m) /\
+  wf_text_rl (publication_date m) /\ wf_text_rl (modification_date m).
+Definition wf_names_rl (d : list (N * text)) : Prop :=
+  Forall (fun p => wf_text_rl (snd p)) d /\ NoDup (keys d).
+
+Lemma wf_field_weaken v : wf_field v -> wf_text_rl v.
+Proof. intros [A B]. split; [exact A|now apply no_break_no_nlcr]. Qed.
+Lemma wf_fields_weaken m : wf_fields m -> wf_fields_rl m.
+Proof.
+  intros (H1 & H2 & H3 & H4 & H5 & H6 & H7 & H8 & H9).
+  repeat split; first [apply H1|apply H2|apply H3|apply H4|apply H5|apply H6|apply H7|apply H8|apply H9
+                      |apply no_break_no_nlcr; first [apply H1|apply H2|apply H3|apply H4|apply H5|apply H6|apply H7|apply H8|apply H9]].
+Qed.
+Lemma wf_names_weaken d : wf_names d -> wf_names_rl d.
+Proof.
+  intros [F D]. split; [|exact D]. eapply Forall_impl; [|exact F]. intros q H. now apply wf_field_weaken.
+Qed.
+
+Lemma no_nlcr_no_nl v : no_nlcr v = true -> forallb (fun c => negb (N.eqb c 10)) v = true.
+Proof. unfold no_nlcr. apply forallb_impl. intros c H. now apply andb_true_iff in H as [H _]. Qed.
+
+Theorem metadata_roundtrip_rl au m m' :
+  wf_fields_rl m -> parse_meta_lines au m' (meta_lines m) = Ok (copy_fields m m').
+Proof.
+  intros (H1 & H2 & H3 & H4 & H5 & H6 & H7 & H8 & H9).
+  unfold parse_meta_lines, meta_lines. cbn [fold_left rbind].
+  rewrite parse_line_file_name by apply H1. cbn [rbind].
+  rewrite parse_line_title by apply H2. cbn [rbind].
+  rewrite parse_line_description by apply H3. cbn [rbind].
+  rewrite parse_line_data_type by apply H4. cbn [rbind].
+  rewrite parse_line_modification_type by apply H5. cbn [rbind].
+  rewrite parse_line_relates_to by apply H6. cbn [rbind].
+  rewrite parse_line_related_files by apply H7. cbn [rbind].
+  rewrite parse_line_publication_date by apply H8. cbn [rbind].
+  rewrite parse_line_modification_date by apply H9. reflexivity.
+Qed.
+
+(* re.match(name pattern, stripped line): the final group stops only at "\n" *)
+Lemma match_name_line_nl prefix a nm :
+  forallb (fun c => negb (N.eqb c 10)) nm = true ->
+  match_name prefix (name_key prefix a ++ spv nm) = Some (a, nm).
+Proof.
+  intros Hb. unfold match_name, name_key. rewrite <- !app_assoc. rewrite startswith_app.
+  unfold drop. rewrite skipn_app_exact. simpl app.
+  rewrite span_digits_app; [|apply show_N_digits|reflexivity].
+  pose proof (show_N_nonempty a) as Hne. destruct (show_N a) as [|d0 dr] eqn:Ed; [easy|].
+  rewrite <- Ed. rewrite read_show_N.
+  assert (U : upto_nl nm = nm) by (now apply upto_nl_id).
+  destruct nm as [|c r]; [reflexivity|]. unfold spv. now rewrite U.
+Qed.
+
+Lemma parse_line_alt_name_rl au m a nm : wf_text_rl nm ->
+  parse_metadata au m (strip (name_line alt_name_prefix a nm)) =
+  rmap (fun nm' => set_alt_names m (assoc_set N.eqb a nm' (alt_names m)))
+       (corrected_name au nm (values (alt_names m)) (reserved m)).
+Proof.
+  intros [Hv Hb]. rewrite strip_name_line; [|reflexivity|exact Hv].
+  pose proof (match_name_line_nl alt_name_prefix a nm (no_nlcr_no_nl _ Hb)) as M.
+  unfold parse_metadata. rewrite M. clear M.
+  unfold name_key, alt_name_prefix. rewrite <- !app_assoc.
+  remember (show_N a ++ [58%N] ++ spv nm) as Y. cbn -[corrected_name]. reflexivity.
+Qed.
+
+Theorem alt_names_roundtrip_rl m' d :
+  Forall (fun p => wf_text_rl (snd p)) d ->
+  parse_meta_lines false m' (alt_name_lines d) = Ok (set_alt_names m' (set_all d (alt_names m'))).
+Proof.
+  unfold parse_meta_lines. revert m'. induction d as [|[a nm] r IH]; intros m' H.
+  - cbn. destruct m'; reflexivity.
+  - inversion H as [|? ? Hq Hr]; subst. cbn [alt_name_lines map fold_left rbind fst snd].
+    cbn [fst snd] in *. rewrite parse_line_alt_name_rl by assumption.
+    unfold corrected_name. cbn [andb rmap].
+    fold (alt_name_lines r). rewrite (IH _ Hr). reflexivity.
+Qed.
+
+Corollary alt_names_roundtrip_fresh_rl m' d :
+  wf_names_rl d -> alt_names m' = [] ->
+  parse_meta_lines false m' (alt_name_lines d) = Ok (set_alt_names m' d).
+Proof.
+  intros [Hf Hn] E. rewrite alt_names_roundtrip_rl by exact Hf. rewrite E.
+  rewrite set_all_fresh; [reflexivity|exact Hn].
+Qed.
+
+Lemma no_nlcr_app a b : no_nlcr (a ++ b) = no_nlcr a && no_nlcr b.
+Proof. apply forallb_app. Qed.
+
+Lemma meta_lines_no_nlcr m : wf_fields_rl m -> forallb no_nlcr (meta_lines m) = true.
+Proof.
+  intros (H1 & H2 & H3 & H4 & H5 & H6 & H7 & H8 & H9).
+  unfold meta_lines. cbn [forallb]. unfold wf_text_rl, no_nlcr in *.
+  rewrite !forallb_app. cbn [forallb lit].
+  destruct H1 as [_ ->], H2 as [_ ->], H3 as [_ ->], H4 as [_ ->], H5 as [_ ->], H6 as [_ ->],
+           H7 as [_ ->], H8 as [_ ->], H9 as [_ ->]. reflexivity.
+Qed.
+
+Lemma name_lines_no_nlcr prefix d :
+  no_nlcr prefix = true -> Forall (fun p => wf_text_rl (snd p)) d ->
+  forallb no_nlcr (map (fun p => name_line prefix (fst p) (snd p)) d) = true.
+Proof.
+  intros Hp. induction 1 as [|[a nm] r [Hv Hb] Hr IH]; [reflexivity|].
+  cbn [map forallb fst snd]. rewrite IH, andb_true_r.
+  unfold name_line, name_key. rewrite !no_nlcr_app. rewrite Hp.
+  rewrite (no_break_no_nlcr _ (show_N_no_break a)).
+  cbn [snd] in Hb. unfold no_nlcr in *. cbn [forallb]. now rewrite Hb.
+Qed.
+
 Lemma kv_not_cat K v :
   K <> [] -> strip K = K -> wf_value v ->
   differ P_uniq K = true -> differ P_ncat K = true -> differ P_cname K = true ->
   not_cat_line (strip (K ++ 32%N :: v)).
 Proof. intros NE SK Hv A B C. rewrite strip_kv by assumption. now apply not_cat_line_key. Qed.
 
-Lemma meta_lines_not_cat m : wf_fields m -> Forall (fun l => not_cat_line (strip l)) (meta_lines m).
+Lemma meta_lines_not_cat m : wf_fields_rl m -> Forall (fun l => not_cat_line (strip l)) (meta_lines m).
 Proof.
   intros (H1 & H2 & H3 & H4 & H5 & H6 & H7 & H8 & H9). unfold meta_lines.
   apply Forall_cons; [apply kv_not_cat; [discriminate|reflexivity|apply H1|reflexivity|reflexivity|reflexivity]|].
@@ -931,7 +1045,7 @@ Proof.
 Qed.
 
 Lemma alt_name_lines_not_cat d :
-  Forall (fun p => wf_field (snd p)) d -> Forall (fun l => not_cat_line (strip l)) (alt_name_lines d).
+  Forall (fun p => wf_text_rl (snd p)) d -> Forall (fun l => not_cat_line (strip l)) (alt_name_lines d).
 Proof.
   induction 1 as [|[a nm] r [Hv _] _ IH]; [constructor|]. cbn [alt_name_lines map fst snd].
   constructor; [now apply name_line_not_cat|exact IH].
@@ -980,13 +1094,13 @@ Proof.
   rewrite py_int_sp_show_N. reflexivity.
 Qed.
 
-Lemma header_line_cat_name au rc i a nm : wf_value nm -> no_break nm = true ->
+Lemma header_line_cat_name au rc i a nm : wf_value nm -> no_nlcr nm = true ->
   header_line au rc i (strip (name_line cat_name_prefix a nm)) =
   rmap (fun nm' => set_c_cat_names i (assoc_set N.eqb a nm' (c_cat_names i)))
        (corrected_name au nm (values (c_cat_names i)) rc).
 Proof.
   intros Hv Hb. rewrite strip_name_line; [|reflexivity|exact Hv].
-  pose proof (match_name_line cat_name_prefix a nm Hb) as M.
+  pose proof (match_name_line_nl cat_name_prefix a nm (no_nlcr_no_nl _ Hb)) as M.
   unfold header_line.
   assert (E1 : startswith (lit "# NUMBER UNIQUE PREFERENCES") (name_key cat_name_prefix a ++ spv nm) = false).
   { unfold name_key. rewrite <- !app_assoc. now apply sw_false. }
@@ -1039,7 +1153,7 @@ Lemma fold_header_cons au rc r l ls :
 Proof. reflexivity. Qed.
 
 (* category names, autocorrect off *)
-Lemma fold_header_cat_names rc d : Forall (fun p => wf_field (snd p)) d -> forall i,
+Lemma fold_header_cat_names rc d : Forall (fun p => wf_text_rl (snd p)) d -> forall i,
   fold_header false rc (Ok i) (cat_name_lines d) = Ok (set_c_cat_names i (set_all d (c_cat_names i))).
 Proof.
   induction 1 as [|[a nm] r [Hv Hb] _ IH]; intros i.
@@ -1067,10 +1181,33 @@ Record wf_cat (i : cinst) : Prop := mk_wf_cat {
   wf_cats : wf_names (c_cat_names i)
 }.
 
-Lemma wf_ballots_nonempty i : wf_cat i -> Forall (fun b => b <> []) (c_prefs i).
+(* the same for the FILE entry points: text values may contain the eight splitlines-only boundaries inside *)
+Record wf_cat_rl (i : cinst) : Prop := mk_wf_cat_rl {
+  rl_some_ballot : c_prefs i <> [];
+  rl_ncat : (1 <= c_num_categories i)%N;
+  rl_len : Forall (fun b => N.of_nat (List.length b) = c_num_categories i) (c_prefs i);
+  rl_mult_pos : Forall (fun p => (1 <= snd p)%N) (c_mult i);
+  rl_keys : Permutation (map fst (c_mult i)) (c_prefs i);
+  rl_nodup : NoDup (c_prefs i);
+  rl_meta : wf_fields_rl (c_meta i);
+  rl_dtype : data_type (c_meta i) = lit "cat";
+  rl_resv : reserved (c_meta i) = [];
+  rl_alts : wf_names_rl (alt_names (c_meta i));
+  rl_cats : wf_names_rl (c_cat_names i)
+}.
+
+Lemma wf_cat_weaken i : wf_cat i -> wf_cat_rl i.
 Proof.
-  intros W. eapply Forall_impl; [|apply (wf_len i W)]. intros b Hb ->. simpl in Hb.
-  pose proof (wf_ncat i W). lia.
+  intros [A B C D E F G H I J K]. constructor; try assumption.
+  - now apply wf_fields_weaken.
+  - now apply wf_names_weaken.
+  - now apply wf_names_weaken.
+Qed.
+
+Lemma wf_ballots_nonempty i : wf_cat_rl i -> Forall (fun b => b <> []) (c_prefs i).
+Proof.
+  intros W. eapply Forall_impl; [|apply (rl_len i W)]. intros b Hb ->. simpl in Hb.
+  pose proof (rl_ncat i W). lia.
 Qed.
 
 Lemma hash_line_nl l : hash_line l -> hash_line (l ++ nl).
@@ -1094,29 +1231,29 @@ Qed.
 
 Definition start_inst : cinst := cinst0 (meta0 (lit "cat")).
 
-Lemma fold_header_all i : wf_cat i ->
+Lemma fold_header_all i : wf_cat_rl i ->
   fold_header false [] (Ok start_inst) (header_lines i) = Ok (set_c_ballots i [] []).
 Proof.
   intros W. unfold header_lines. rewrite !fold_header_app.
   (* the nine metadata lines *)
   rewrite (fold_header_meta_lines false [] start_inst (meta_lines (c_meta i)))
-    by (apply meta_lines_not_cat, (wf_meta i W)).
-  rewrite metadata_roundtrip by apply (wf_meta i W). cbn [rmap].
+    by (apply meta_lines_not_cat, (rl_meta i W)).
+  rewrite metadata_roundtrip_rl by apply (rl_meta i W). cbn [rmap].
   (* the four count lines *)
   rewrite fold_header_counts.
   (* category names *)
-  destruct (wf_cats i W) as [CF CN].
+  destruct (rl_cats i W) as [CF CN].
   rewrite fold_header_cat_names by exact CF.
   (* alternative names *)
-  destruct (wf_alts i W) as [AF AN].
+  destruct (rl_alts i W) as [AF AN].
   rewrite fold_header_meta_lines by (now apply alt_name_lines_not_cat).
-  rewrite alt_names_roundtrip_fresh; [|split; assumption|reflexivity].
+  rewrite alt_names_roundtrip_fresh_rl; [|split; assumption|reflexivity].
   cbn [rmap]. f_equal.
   (* the rebuilt record *)
   cbn [c_cat_names c_meta c_num_unique c_num_categories c_prefs c_mult set_c_meta set_c_cat_names
        set_c_num_categories set_c_num_unique set_c_ballots start_inst cinst0].
   rewrite (set_all_fresh (c_cat_names i) []) by exact CN. cbn [app].
-  pose proof (wf_resv i W) as R.
+  pose proof (rl_resv i W) as R.
   destruct i as [m nu nc cn pr mu]. destruct m. cbn in R. subst. reflexivity.
 Qed.
 
@@ -1208,14 +1345,29 @@ Proof.
   rewrite alt_name_lines_no_break by exact AF. cbn [andb].
   apply forallb_forall. intros l Hl. apply in_map_iff in Hl as [b [<- Hb]].
   assert (NE : b <> []).
-  { pose proof (wf_ballots_nonempty i W) as F. rewrite Forall_forall in F. apply F.
+  { pose proof (wf_ballots_nonempty i (wf_cat_weaken i W)) as F. rewrite Forall_forall in F. apply F.
     eapply Permutation_in; [apply Permutation_sym, sorted_prefs_perm|exact Hb]. }
   destruct b as [|c b']; [now elim NE|]. apply ballot_text_no_break.
 Qed.
 
+Lemma all_lines_no_nlcr i : wf_cat_rl i -> forallb no_nlcr (file_lines i) = true.
+Proof.
+  intros W. unfold file_lines, header_lines. rewrite !forallb_app.
+  rewrite meta_lines_no_nlcr by apply (rl_meta i W).
+  rewrite (forallb_no_nlcr _ (count_lines_no_break i)).
+  destruct (rl_cats i W) as [CF _]. destruct (rl_alts i W) as [AF _].
+  unfold cat_name_lines, alt_name_lines. rewrite !name_lines_no_nlcr by (reflexivity || assumption).
+  cbn [andb].
+  apply forallb_forall. intros l Hl. apply in_map_iff in Hl as [b [<- Hb]].
+  assert (NE : b <> []).
+  { pose proof (wf_ballots_nonempty i W) as F. rewrite Forall_forall in F. apply F.
+    eapply Permutation_in; [apply Permutation_sym, sorted_prefs_perm|exact Hb]. }
+  destruct b as [|c b']; [now elim NE|]. apply no_break_no_nlcr, ballot_text_no_break.
+Qed.
+
 (* the header loop on the lines of a written file (each followed by the same whitespace: a newline for readlines,
    nothing for splitlines): it rebuilds everything but the ballots and stops at the first ballot line *)
-Lemma header_loop_file w i : forallb is_space w = true -> wf_cat i ->
+Lemma header_loop_file w i : forallb is_space w = true -> wf_cat_rl i ->
   header_loop false [] start_inst (map (fun l => l ++ w) (file_lines i))
   = Ok (set_c_ballots i [] [], map (fun b => ballot_text (c_mult i) b ++ w) (sorted_prefs i)).
 Proof.
@@ -1225,7 +1377,7 @@ Proof.
   assert (NES : Forall (fun b => b <> []) S).
   { eapply Permutation_Forall; [exact PS|now apply wf_ballots_nonempty]. }
   destruct S as [|s S'].
-  { exfalso. apply (wf_some_ballot i W). now apply Permutation_nil, Permutation_sym. }
+  { exfalso. apply (rl_some_ballot i W). now apply Permutation_nil, Permutation_sym. }
   rewrite (header_loop_app false [] _ start_inst (set_c_ballots i [] [])).
   2:{ discriminate. }
   2:{ apply Forall_forall. intros l Hl. apply in_map_iff in Hl as [l0 [<- Hl0]].
@@ -1236,7 +1388,7 @@ Proof.
   cbn [map]. now rewrite header_loop_stop by (now apply ballot_text_not_hash).
 Qed.
 
-Theorem roundtrip_lines w i : forallb is_space w = true -> wf_cat i ->
+Theorem roundtrip_lines w i : forallb is_space w = true -> wf_cat_rl i ->
   cat_parse false false (meta0 (lit "cat")) (map (fun l => l ++ w) (file_lines i)) = Ok (sorted_view i).
 Proof.
   intros Hw W.
@@ -1245,7 +1397,7 @@ Proof.
   assert (PS : Permutation (c_prefs i) (sorted_prefs i)) by apply sorted_prefs_perm.
   assert (NES : Forall (fun b => b <> []) (sorted_prefs i)).
   { eapply Permutation_Forall; [exact PS|now apply wf_ballots_nonempty]. }
-  assert (NDS : NoDup (sorted_prefs i)) by (eapply Permutation_NoDup; [exact PS|apply (wf_nodup i W)]).
+  assert (NDS : NoDup (sorted_prefs i)) by (eapply Permutation_NoDup; [exact PS|apply (rl_nodup i W)]).
   assert (FR : forall b, In b (sorted_prefs i) -> ~ In b (map fst (c_mult (set_c_ballots i [] [])))).
   { intros b _ []. }
   rewrite (ballot_loop_lines (c_mult i) w (sorted_prefs i) Hw _ NES NDS FR).
@@ -1253,7 +1405,7 @@ Proof.
 Qed.
 
 (* header_only=True on the same lines: everything but the ballots (used by C10) *)
-Theorem header_only_lines w i : forallb is_space w = true -> wf_cat i ->
+Theorem header_only_lines w i : forallb is_space w = true -> wf_cat_rl i ->
   cat_parse false true (meta0 (lit "cat")) (map (fun l => l ++ w) (file_lines i)) = Ok (set_c_ballots i [] []).
 Proof.
   intros Hw W.
@@ -1262,13 +1414,17 @@ Proof.
 Qed.
 
 (* C08_roundtrip: parse_file (readlines) of the written file gives back the instance, ballots in file order *)
-Theorem roundtrip_readlines i : wf_cat i ->
+Theorem roundtrip_readlines_rl i : wf_cat_rl i ->
   cat_parse false false (meta0 (lit "cat")) (readlines (cat_write i)) = Ok (sorted_view i).
 Proof.
   intros W. rewrite cat_write_lines. fold (file_lines i).
-  rewrite readlines_unlines by (apply forallb_no_nlcr; now apply all_lines_no_break).
+  rewrite readlines_unlines by (now apply all_lines_no_nlcr).
   now apply (roundtrip_lines nl).
 Qed.
+
+Theorem roundtrip_readlines i : wf_cat i ->
+  cat_parse false false (meta0 (lit "cat")) (readlines (cat_write i)) = Ok (sorted_view i).
+Proof. intros W. now apply roundtrip_readlines_rl, wf_cat_weaken. Qed.
 
 (* the same through parse_str (splitlines) *)
 Theorem roundtrip_splitlines i : wf_cat i ->
@@ -1278,7 +1434,7 @@ Proof.
   rewrite splitlines_unlines by (now apply all_lines_no_break).
   assert (E : map (fun l : text => l ++ []) (file_lines i) = file_lines i).
   { rewrite <- (map_id (file_lines i)) at 2. apply map_ext. intros l. apply app_nil_r. }
-  rewrite <- E. now apply (roundtrip_lines []).
+  rewrite <- E. now apply (roundtrip_lines []), wf_cat_weaken.
 Qed.
 
 (* ================================================================================================ *)
@@ -1297,7 +1453,7 @@ Proof.
 Qed.
 
 (* the sorted view holds the same table (as a dict), the same ballots (as a multiset), everything else equal *)
-Theorem sorted_view_same i : wf_cat i ->
+Theorem sorted_view_same i : wf_cat_rl i ->
   c_meta (sorted_view i) = c_meta i /\ c_num_unique (sorted_view i) = c_num_unique i /\
   c_num_categories (sorted_view i) = c_num_categories i /\ c_cat_names (sorted_view i) = c_cat_names i /\
   Permutation (c_prefs i) (c_prefs (sorted_view i)) /\
@@ -1308,8 +1464,8 @@ Proof.
   - apply sorted_prefs_perm.
   - rewrite sorted_view_mult. rewrite <- (retable_self (c_mult i)) at 1.
     + unfold retable. apply Permutation_map.
-      eapply Permutation_trans; [apply (wf_keys i W)|apply sorted_prefs_perm].
-    + eapply Permutation_NoDup; [apply Permutation_sym, (wf_keys i W)|apply (wf_nodup i W)].
+      eapply Permutation_trans; [apply (rl_keys i W)|apply sorted_prefs_perm].
+    + eapply Permutation_NoDup; [apply Permutation_sym, (rl_keys i W)|apply (rl_nodup i W)].
   - intros b. rewrite sorted_view_mult.
     destruct (in_dec (list_eq_dec (list_eq_dec N.eq_dec)) b (sorted_prefs i)) as [Hin|Hnin].
     + now apply mult_of_retable.
@@ -1320,7 +1476,7 @@ Proof.
       rewrite !A; [reflexivity| |].
       * intros Hin. apply Hnin.
         eapply Permutation_in; [apply sorted_prefs_perm|].
-        eapply Permutation_in; [apply (wf_keys i W)|exact Hin].
+        eapply Permutation_in; [apply (rl_keys i W)|exact Hin].
       * unfold retable. rewrite map_map. cbn [fst]. now rewrite map_id.
 Qed.
 
